@@ -599,8 +599,31 @@ fn static_nested_any(r: &mut Report) {
     }
 }
 
+/// values whose serde form depends on is_human_readable (IpAddr, uuid, a probe type): `any` is a
+/// JSON-like carrier, so it must give the serializer and the deserializer the answer JSON gives,
+/// at every position; the JSON of the carrier is the JSON of the value
+fn static_hr(r: &mut Report) {
+    let v = crate::c01::hr::holder(true);
+    buffered_case("hr-sensitive", &v, r);
+    buffered_case("hr-sensitive", &crate::c01::hr::Wrapper(v.clone()), r);
+    buffered_case("hr-sensitive", &vec![Some(v.clone())], r);
+    r.evaluations += 1;
+    let direct = conjure_serde::json::to_string(&v).map_err(|e| e.to_string());
+    let via = Any::new(&v).map_err(|e| e.to_string()).and_then(|a| conjure_serde::json::to_string(&a).map_err(|e| e.to_string()));
+    let same = match (&direct, &via) {
+        (Ok(a), Ok(b)) => serde_json::from_str::<serde_json::Value>(a).ok() == serde_json::from_str::<serde_json::Value>(b).ok(),
+        _ => false,
+    };
+    if same {
+        r.outcome("K:json-of-any-is-json-of-value");
+    } else {
+        r.violation("C13|K|json-differs|buffered:hr-sensitive".to_string(), format!("JSON of the value is {:?}, JSON of its Any is {:?}", direct, via), json!({"space": "K", "buffered": "hr-sensitive"}));
+    }
+}
+
 fn static_keys(r: &mut Report) {
     static_buffered(r);
+    static_hr(r);
     static_smile(r);
     static_nested_any(r);
     use conjure_object::DoubleKey;
